@@ -40,3 +40,9 @@ Lemma cmp_false_iff : forall o a b, cmp_eval o a b = false <-> ~ cmp_prop o a b.
 Proof.
   intros o a b. rewrite <- cmp_true_iff. destruct (cmp_eval o a b); intuition congruence.
 Qed.
+
+(* C integer conversions, for expressions translated from the source: a value converted to an unsigned type of
+   modulus m is z mod m; to a signed type of modulus m (h = m/2) it is the representative in [-h, h) -- what gcc
+   computes for signed overflow as well (formally undefined behaviour) *)
+Definition c_wrap_u (m z : Z) : Z := z mod m.
+Definition c_wrap_s (m h z : Z) : Z := (z + h) mod m - h.
